@@ -1223,7 +1223,7 @@ LEVEL_TEXT += (" R2 also decides the table when it is written through a generic 
                "the visiting callable passes its own argument on untouched, the parsing code hands it the Ok payload of the one parse exactly once (`.and_then(f)` / `.map(f)` / `f(v)`, lib_c09.handoffs), and the "
                "helper's type parameter is read off the callable's argument type. R1's query clause accepts the raw query as text or as its bytes (`str::as_bytes`) with an empty literal default (text or byte string, "
                "`c[..]` only as a full-range Index); the streamed chunk's chain starts at the variant-precise sources of the item (lib_c01.sources), so a chunk that comes out of a spliced async helper as `Ok(Some(data))` is `data`.")
-LEVEL_TEXT += " Also (R11): nothing on the dispatch path rewrites the request head (only read accessors and Request::map are used). Also (R2, wrapper kinds): deserialize_option / deserialize_newtype_struct hand the deserializer itself to visit_some / visit_newtype_struct on every path; (R5) once the MIME parser accepted the Content-Type every path leads to the Multipart constructor. Also: deserialize_enum hands the deserializer to visit_enum on every path (R2); the address a TlsConn is built with comes straight from the accept() that produced its socket (R3); the buffering helper returns only after the stream was pulled to its end (R1)."
+LEVEL_TEXT += " Also (R11): nothing on the dispatch path rewrites the request head (only read accessors and Request::map are used). Also (R2, wrapper kinds): deserialize_option / deserialize_newtype_struct hand the deserializer itself to visit_some / visit_newtype_struct on every path; (R5) once the MIME parser accepted the Content-Type every path leads to the Multipart constructor. Also: deserialize_enum hands the deserializer to visit_enum on every path (R2); the address a TlsConn is built with comes straight from the accept() that produced its socket (R3); the buffering helper returns only after the stream was pulled to its end (R1). Also (R12 = C03.R2): a decoded path segment is refused only when it equals `.` or `..`."
 
 
 SELFTEST += [
